@@ -20,6 +20,10 @@ import (
 
 var verifRoot = "/verif"
 
+// outRoot: where evidence and replay files are written (GOVERIF_OUT, default /verif); used to try
+// seeded changes in scratch worktrees without touching /verif.
+var outRoot = envOr("GOVERIF_OUT", "/verif")
+
 type PropSpec struct {
 	ID        string
 	Kinds     []string        // obligation kinds generated
@@ -31,6 +35,7 @@ type PropSpec struct {
 	OutOfReach []string
 	Bounded   []string
 	Standin   []string // classes of the bounded formatter stand-in owned by this property
+	Extra     func(e *Engine) []*Obligation // further obligations decided outside the path executor (ALIAS, READS)
 }
 
 type KnownFinding struct {
@@ -95,6 +100,17 @@ func propSpecs() map[string]*PropSpec {
 			Own:     func(o *Obligation) bool { return strings.Contains(o.Name, "C16:") },
 			Decided: []string{"format: exactly one call of the formatter on the given text; on a formatter error exit status 1 and no file-system effect; with -f exactly one WriteFile(file, result); without -f exactly one stdout line result+\"\\n\" and no file-system effect", "C export: formatter called on GoString(dsl), returns CString(result) or CString(\"Error:\"+err)", "compile: ParseFile called once on the input; see evidence for the per-target clauses"},
 			OutOfReach: []string{"cobra flag parsing and command dispatch, cgo string conversion (trusted library contracts)"}},
+		"C08": {ID: "C08", Kinds: []string{"POST", "FRAME", "PRE", "SAFE"}, FuncMatch: regexp.MustCompile(`PacketDslVisitorImpl\)\.(VisitFieldDefinitionWithAttribute|VisitFieldDefinition|VisitMetaField|metaDataDeclarationToField|metaDataDeclarationToMetaData)$|model\.NewConfiguration$`),
+			Own: func(o *Obligation) bool {
+				return strings.Contains(o.Name, "C08:") || o.Kind == "FRAME" && !o.PhaseB
+			},
+			Extra: func(e *Engine) []*Obligation { return append(e.aliasObligations(), e.readsObligations()...) },
+			Decided: []string{"type aliases: every spelling of a basic-type token (alias table read from the grammar) is normalised to one name by getBasicType and by each GetType method that holds a spelling (ALIAS, complete over the finite alias table)",
+				"comments, doc strings, whitespace, separators, positions: no generator function and no model function it calls loads Doc / Description / Line / Column or a raw type spelling outside the normalisers (READS, per function); the model builder calls no hidden-channel or optional-separator accessor",
+				"an attribute applies only to the field it is written on: every store executed while a field definition with attributes is visited targets an object allocated by that visit (FRAME on VisitFieldDefinitionWithAttribute and the functions it calls)",
+				"explicit default options versus none: NewConfiguration yields the documented default for an absent option and the given value for a present one, and the explicit default values are exactly the defaults (POST)"},
+			OutOfReach: []string{"zchar[n] versus explicit NUL right padding, inline versus prefixed attribute placement, key list versus expanded pairs, MetaData-typed field versus inlined type: these relate two runs of the visitor (relational); the engine has no two-run obligations in this revision",
+				"default padding versus none at the level of emitted text"}},
 		"C09": {ID: "C09", Kinds: []string{"POST", "PRE", "SAFE"}, FuncMatch: regexp.MustCompile(`parser\.FormatPacketDsl$|cmd\.(init\$2|FormatPacketDslExport)$`),
 			Own:     func(o *Obligation) bool { return strings.Contains(o.Name, "C09:") || strings.Contains(o.Name, "format-error-exit") },
 			Standin: []string{"panic", "reparse", "tokens", "comments", "error-path", "outputs"},
@@ -204,6 +220,9 @@ func runProperty(e *Engine, spec *PropSpec, tier string) *propResult {
 			r.owned = append(r.owned, o)
 		}
 	}
+	if spec.Extra != nil {
+		r.owned = append(r.owned, spec.Extra(e)...)
+	}
 	// vacuity probes: entry assumptions of every function must be satisfiable
 	r.vac = e.checkVacuity(budget)
 	return r
@@ -257,7 +276,7 @@ func report(e *Engine, spec *PropSpec, r *propResult, tier string, seed int, wal
 	var samples []interface{}
 	var knownHit, undecided, newProved []string
 	newLedger := &Ledger{Property: spec.ID, Obligations: map[string]string{}, Functions: map[string]string{}}
-	os.MkdirAll(filepath.Join(verifRoot, "replays", spec.ID), 0755)
+	os.MkdirAll(filepath.Join(outRoot, "replays", spec.ID), 0755)
 	for _, o := range r.owned {
 		byKind[o.Kind]++
 		solverSecs += o.Secs
@@ -304,7 +323,7 @@ func report(e *Engine, spec *PropSpec, r *propResult, tier string, seed int, wal
 			outOfSubset = append(outOfSubset, fr.Func+": "+fr.Err)
 			if ledger.Functions[fr.Func] != "out-of-subset" {
 				violations++
-				p := filepath.Join(verifRoot, "replays", spec.ID, sanitize(fr.Func)+".subset.json")
+				p := filepath.Join(outRoot, "replays", spec.ID, sanitize(fr.Func)+".subset.json")
 				writeJSON(p, map[string]interface{}{"property": spec.ID, "obligation": fr.Func + "#SUBSET", "reason": "function cannot be verified: " + fr.Err, "verifier_output": fr.Err})
 				lines = append(lines, fmt.Sprintf("VIOLATION property=%s replay=%s no-failing-input-found", spec.ID, p))
 			}
@@ -313,7 +332,7 @@ func report(e *Engine, spec *PropSpec, r *propResult, tier string, seed int, wal
 			if fr.Paths == 0 && fr.Exits == 0 {
 				// no path reaches a return or an exit: every obligation of the function would be vacuous
 				violations++
-				p := filepath.Join(verifRoot, "replays", spec.ID, sanitize(fr.Func)+".nopath.json")
+				p := filepath.Join(outRoot, "replays", spec.ID, sanitize(fr.Func)+".nopath.json")
 				writeJSON(p, map[string]interface{}{"property": spec.ID, "obligation": fr.Func + "#VAC:nopath", "reason": "symbolic execution of the function reaches neither a return nor an exit: contradictory assumptions or a modelling gap"})
 				lines = append(lines, fmt.Sprintf("VIOLATION property=%s replay=%s no-failing-input-found", spec.ID, p))
 			}
@@ -325,7 +344,7 @@ func report(e *Engine, spec *PropSpec, r *propResult, tier string, seed int, wal
 		if v.Res.Verdict == "unsat" {
 			vacFail++
 			violations++
-			p := filepath.Join(verifRoot, "replays", spec.ID, sanitize(v.Func)+".vacuous.json")
+			p := filepath.Join(outRoot, "replays", spec.ID, sanitize(v.Func)+".vacuous.json")
 			writeJSON(p, map[string]interface{}{"property": spec.ID, "obligation": v.Func + "#VAC", "reason": "contradictory entry assumptions (requires / invariants): every obligation of this function would be vacuous"})
 			lines = append(lines, fmt.Sprintf("VIOLATION property=%s replay=%s no-failing-input-found", spec.ID, p))
 		}
@@ -333,20 +352,20 @@ func report(e *Engine, spec *PropSpec, r *propResult, tier string, seed int, wal
 	// contract targets that no longer resolve
 	for _, c := range e.contracts.unattached(e) {
 		violations++
-		p := filepath.Join(verifRoot, "replays", spec.ID, sanitize(c)+".unattached.json")
+		p := filepath.Join(outRoot, "replays", spec.ID, sanitize(c)+".unattached.json")
 		writeJSON(p, map[string]interface{}{"property": spec.ID, "obligation": c + "#ATTACH", "reason": "contract target missing: a written contract no longer resolves to a function"})
 		lines = append(lines, fmt.Sprintf("VIOLATION property=%s replay=%s no-failing-input-found", spec.ID, p))
 	}
 	if len(r.owned) == 0 {
 		violations++
-		lines = append(lines, fmt.Sprintf("VIOLATION property=%s replay=%s no-failing-input-found", spec.ID, filepath.Join(verifRoot, "replays", spec.ID, "no-obligations.json")))
-		writeJSON(filepath.Join(verifRoot, "replays", spec.ID, "no-obligations.json"), map[string]interface{}{"property": spec.ID, "reason": "zero obligations generated"})
+		lines = append(lines, fmt.Sprintf("VIOLATION property=%s replay=%s no-failing-input-found", spec.ID, filepath.Join(outRoot, "replays", spec.ID, "no-obligations.json")))
+		writeJSON(filepath.Join(outRoot, "replays", spec.ID, "no-obligations.json"), map[string]interface{}{"property": spec.ID, "reason": "zero obligations generated"})
 	}
 	var standinInfo map[string]interface{}
 	if len(spec.Standin) > 0 {
 		if err := runFormatterStandin(e, seed); err != nil {
 			violations++
-			p := filepath.Join(verifRoot, "replays", spec.ID, "standin-harness.json")
+			p := filepath.Join(outRoot, "replays", spec.ID, "standin-harness.json")
 			writeJSON(p, map[string]interface{}{"property": spec.ID, "obligation": "BOUNDED:" + spec.ID + ":harness", "verifier_output": err.Error()})
 			lines = append(lines, fmt.Sprintf("VIOLATION property=%s replay=%s no-failing-input-found", spec.ID, p))
 		} else {
@@ -361,7 +380,7 @@ func report(e *Engine, spec *PropSpec, r *propResult, tier string, seed int, wal
 					continue
 				}
 				violations++
-				p := filepath.Join(verifRoot, "replays", spec.ID, sanitize(n)+".reproduced.json")
+				p := filepath.Join(outRoot, "replays", spec.ID, sanitize(n)+".reproduced.json")
 				writeJSON(p, map[string]interface{}{"property": spec.ID, "obligation": n, "class": o.Class, "input": standinInputs[o.File], "observed": o.Note, "entry": "parser.FormatPacketDsl (real code, go test -overlay)"})
 				lines = append(lines, fmt.Sprintf("VIOLATION property=%s replay=%s", spec.ID, p))
 			}
@@ -439,8 +458,8 @@ func report(e *Engine, spec *PropSpec, r *propResult, tier string, seed int, wal
 		cov["samples"] = []interface{}{map[string]interface{}{"note": "all obligations closed by the simplifier"}}
 	}
 	ev := Evidence{PropertyID: spec.ID, Tier: tier, Seed: seed, Level: level, Coverage: cov, Assumptions: assumptions, WallS: wall.Seconds(), Violations: violations}
-	os.MkdirAll(filepath.Join(verifRoot, "evidence"), 0755)
-	writeJSON(filepath.Join(verifRoot, "evidence", spec.ID+".json"), ev)
+	os.MkdirAll(filepath.Join(outRoot, "evidence"), 0755)
+	writeJSON(filepath.Join(outRoot, "evidence", spec.ID+".json"), ev)
 	if updateLedger {
 		for n, st := range newLedger.Obligations {
 			if st == "failed" {
@@ -498,7 +517,7 @@ func (cs *Contracts) unattached(e *Engine) []string {
 }
 
 func writeReplay(e *Engine, spec *PropSpec, o *Obligation, tier string) string {
-	base := filepath.Join(verifRoot, "replays", spec.ID, sanitize(o.Name))
+	base := filepath.Join(outRoot, "replays", spec.ID, sanitize(o.Name))
 	rec := map[string]interface{}{
 		"property":   spec.ID,
 		"obligation": o.Name,
@@ -621,7 +640,7 @@ func checkEmit(prop, tier string, seed int, updateLedger bool) int {
 	violations, discharged := 0, 0
 	var lines, knownHit []string
 	var samples []interface{}
-	os.MkdirAll(filepath.Join(verifRoot, "replays", prop), 0755)
+	os.MkdirAll(filepath.Join(outRoot, "replays", prop), 0755)
 	for _, o := range owned {
 		if o.OK {
 			discharged++
@@ -639,7 +658,7 @@ func checkEmit(prop, tier string, seed int, updateLedger bool) int {
 		}
 		newLedger.Obligations[o.Name] = "failed"
 		violations++
-		p := filepath.Join(verifRoot, "replays", prop, sanitize(o.Name)+".json")
+		p := filepath.Join(outRoot, "replays", prop, sanitize(o.Name)+".json")
 		rec := map[string]interface{}{"property": prop, "obligation": o.Name, "verifier_output": o.Detail}
 		// the cell itself is the failing input class: replay = the emitted text of the real emitter on it
 		for _, r := range runs {
@@ -667,13 +686,13 @@ func checkEmit(prop, tier string, seed int, updateLedger bool) int {
 	// an obligation that existed on the unchanged tree must still be generated (renamed emitter etc.)
 	for _, n := range vanished {
 		violations++
-		p := filepath.Join(verifRoot, "replays", prop, sanitize(n)+".vanished.json")
+		p := filepath.Join(outRoot, "replays", prop, sanitize(n)+".vanished.json")
 		writeJSON(p, map[string]interface{}{"property": prop, "obligation": n, "reason": "obligation of the ledger is no longer generated: the emitter it is attached to cannot be found or executed"})
 		lines = append(lines, fmt.Sprintf("VIOLATION property=%s replay=%s no-failing-input-found", prop, p))
 	}
 	if len(owned) == 0 {
 		violations++
-		lines = append(lines, fmt.Sprintf("VIOLATION property=%s replay=%s no-failing-input-found", prop, filepath.Join(verifRoot, "replays", prop, "no-obligations.json")))
+		lines = append(lines, fmt.Sprintf("VIOLATION property=%s replay=%s no-failing-input-found", prop, filepath.Join(outRoot, "replays", prop, "no-obligations.json")))
 	}
 	for _, l := range lines {
 		fmt.Println(l)
@@ -703,8 +722,8 @@ func checkEmit(prop, tier string, seed int, updateLedger bool) int {
 	}
 	ev := Evidence{PropertyID: prop, Tier: tier, Seed: seed, Level: level, Coverage: cov, WallS: time.Since(t0).Seconds(), Violations: violations,
 		Assumptions: []string{"strings are abstract: predicates speak about provenance and literal atoms of the emitted template, not about characters produced for unusual names", "option values range over the documented sets (u8/u16/u32/u64 prefixes)", "library contracts of fmt.Sprintf / strings.Builder / strcase / html/template are trusted"}}
-	os.MkdirAll(filepath.Join(verifRoot, "evidence"), 0755)
-	writeJSON(filepath.Join(verifRoot, "evidence", prop+".json"), ev)
+	os.MkdirAll(filepath.Join(outRoot, "evidence"), 0755)
+	writeJSON(filepath.Join(outRoot, "evidence", prop+".json"), ev)
 	if updateLedger {
 		os.MkdirAll(filepath.Join(verifRoot, "ledger"), 0755)
 		writeJSON(filepath.Join(verifRoot, "ledger", prop+".json"), newLedger)
